@@ -38,6 +38,9 @@ type cfg struct {
 	Elapsed     time.Duration
 	ExtraTelem  bool // telemetry batch carries other records around runtimeDone, and one batch without it
 	InitFail    bool // start-up path: server.Run fails
+	// InitErr: what the failing server returns: 0 a plain error, 1 an error wrapping context.DeadlineExceeded, 2 one wrapping
+	// context.Canceled (a start-up step of the server with a deadline of its own; the manager's context is alive)
+	InitErr int `json:",omitempty"`
 	TelemFail   bool // start-up path: the server is healthy but the telemetry listener cannot be bound
 	Wired       bool // the forwarder is built the way the lambda-extension command builds it (NewServer from a configuration that also lists a dynamic header, then the server's own constructor); the datapoints of one invocation carry two values of that tag
 	BadSet      bool // the function also sends a set member that is not valid UTF-8 (a binary id) in every batch
@@ -48,7 +51,7 @@ func (c cfg) String() string {
 	if c.TelemFail {
 		return "telemetry-listener-fails"
 	}
-	return fmt.Sprintf("N%d-b%v-f%d-el%v-x%v-init%v-slowsub%v", c.Invocations, c.Batches, c.Failures, c.Elapsed, c.ExtraTelem, c.InitFail, c.SlowSub) + map[bool]string{true: "-badset"}[c.BadSet] + map[bool]string{true: "-wired"}[c.Wired]
+	return fmt.Sprintf("N%d-b%v-f%d-el%v-x%v-init%v-slowsub%v", c.Invocations, c.Batches, c.Failures, c.Elapsed, c.ExtraTelem, c.InitFail, c.SlowSub) + map[bool]string{true: "-badset"}[c.BadSet] + map[bool]string{true: "-wired"}[c.Wired] + map[int]string{1: "-errdeadline", 2: "-errcanceled"}[c.InitErr]
 }
 
 type run struct {
@@ -268,7 +271,14 @@ func body(c cfg, r *run) func(*vsched.Exec) {
 			return
 		}
 		if c.InitFail {
-			m := extension.VerifNew("lambda.invalid", runtimeAPI{r}, fx.Quiet(), failingServer{errors.New("bad configuration")}, nil, false)
+			serr := errors.New("bad configuration")
+			switch c.InitErr {
+			case 1:
+				serr = fmt.Errorf("resolving the upstream: %w", context.DeadlineExceeded)
+			case 2:
+				serr = fmt.Errorf("loading credentials: %w", context.Canceled)
+			}
+			m := extension.VerifNew("lambda.invalid", runtimeAPI{r}, fx.Quiet(), failingServer{serr}, nil, false)
 			var err error
 			done := false
 			vsched.GoNamed("manager.Run", func() { err = m.Run(ctx); done = true })
@@ -412,6 +422,8 @@ func configs() []cfg {
 		{Invocations: 2, Batches: []int{2, 1}, Failures: 0, Elapsed: time.Second, Wired: true},
 		{InitFail: true},
 		{InitFail: true, SlowSub: true},
+		{InitFail: true, InitErr: 1},
+		{InitFail: true, InitErr: 2},
 		{TelemFail: true},
 		{Invocations: 2, Batches: []int{2, 1}, Failures: 2, Elapsed: time.Second, ExtraTelem: true},
 		{Invocations: 3, Batches: []int{0, 1, 0}, Failures: 1, Elapsed: -1},
